@@ -1,8 +1,9 @@
 import FalconModel.FinalizeWsgi
 import FalconModel.FinalizeErr
 import FalconModel.FinalizeSse
+import FalconModel.FinalizeHist
 /-! line-protocol driver for the C05 extension models: `wsgi` (Wg.call + Wg.serve), `rerr` (Fe.wsgiE / Fe.asgiE),
-    `ser` (Sse.serialize), `sse` (Sse.sseTrace).  The fields of a response state are those of fzdriver. -/
+    `ser` (Sse.serialize), `sse` (Sse.sseTrace), `hist` (Fh.run + Fh.wsgiH / Fh.asgiH).  The fields of a response state are those of fzdriver. -/
 open Fz
 
 def hexD (n : Nat) : Char := if n < 10 then Char.ofNat (48+n) else Char.ofNat (87+n)
@@ -117,8 +118,35 @@ def runSse (ws : List String) : String :=
   let evs := (splitNE (kv ws "evs") ";").map parseEvent
   showTrace (Sse.sseTrace r c (kv ws "close" == "1") evs (kv ws "ef").toNat? (kv ws "disc").toNat? (kv ws "xf").toNat?)
 
+/-! `hist status= head= stream= fail= cookies= dflt= fw= ops=<op>;<op>;…` on a fresh response; an op is `T:<hex|none>`,
+    `D:<hex|none>`, `M:<hex|none>` (assignments), `R:<0|1>` (render_body(); 1 = serialising the media then assigned
+    raises), `H:<hex name>:<hex value>` (header dict assignment).  Reply: what every render_body() call returned, then
+    the finalization on both stacks. -/
+def parseOp (s : String) : Option Fh.Op :=
+  match s.splitOn ":" with
+  | ["T", v] => some (.setText (optB v))
+  | ["D", v] => some (.setData (optB v))
+  | ["M", v] => some (.setMedia (optB v))
+  | ["R", f] => some (.render (f == "1"))
+  | ["H", k, v] => some (.setHeader (strOfHex k) (strOfHex v))
+  | _ => none
+
+def runHist (ws : List String) : String :=
+  let c := parseCfg ws
+  let r0 : Resp := { status := (kv ws "status").toNat!, text := none, data := none, media := none,
+                     stream := parseStream (kv ws "stream"), streamFail := (kv ws "fail").toNat?,
+                     headers := [], cookies := (splitNE (kv ws "cookies") ";").map strOfHex }
+  let ops := (splitNE (kv ws "ops") ";").filterMap parseOp
+  let s0 : Fh.St := { r := r0, cache := none }
+  let outs := (Fh.outputs c s0 ops).map fun o => match o with
+    | none => "raises" | some none => "none" | some (some b) => toHex b
+  let s := Fh.run c s0 ops
+  let sh : Option Out → String := fun o => match o with | some o => showOut o | none => "raised"
+  s!"R {if outs.isEmpty then "." else ",".intercalate outs} W {sh (Fh.wsgiH c s false)} A {sh (Fh.asgiH c s false)}"
+
 def runCase (ws : List String) : String :=
   match ws with
+  | "hist" :: rest => runHist rest
   | "wsgi" :: rest => runWsgi rest
   | "rerr" :: rest => runRerr rest
   | "ser" :: rest => runSer rest
